@@ -511,3 +511,118 @@ def ob_whole_run_replay(nfail: int, c0: int, c1: int, c2: int, c3: int, c4: int,
     finally:
         cl_mod._ControlLoopRunner, cl_mod.time = saved_runner, saved_time
     return res == [[0, 1]] and book["bad"] is None and book["checks"] >= 3
+
+
+# ------------------------------------------------------------------------------------------------ a continued run and its own tick log
+# ctx.to_dict() / running_steps() of a handler rebuild the state from the run's init state + recorded ticks.  A context that is
+# CONTINUED (workflow.run(ctx=handler.ctx, ...)) starts a new run with a new init state; its log must be its own.  BasicRuntime refuses
+# a run id that is already known; if a tree accepts it, the continued run must still report its own state.
+
+
+class CBatch(StartEvent):
+    batch: list
+
+
+class CWork(Event):
+    n: int
+
+
+_CGATES: dict = {}
+_CENTERED: dict = {}
+
+
+class _FirstWins(Workflow):
+    @step
+    async def start(self, ctx: Context, ev: CBatch) -> CWork | None:
+        for n in ev.batch:
+            ctx.send_event(CWork(n=n))
+        return None
+
+    @step(num_workers=1)
+    async def work(self, ctx: Context, ev: CWork) -> StopEvent:
+        import asyncio
+
+        _CENTERED.setdefault(ev.n, asyncio.Event()).set()
+        if ev.n in _CGATES:
+            await _CGATES[ev.n].wait()
+        return StopEvent(result=ev.n)
+
+
+def _nums(items) -> list:
+    import json
+
+    out = []
+    for item in items:
+        s = item["event"] if isinstance(item, dict) else item
+        out.append(json.loads(s)["value"]["n"])
+    return out
+
+
+@obligation(quick=200, thorough=400, partitions_quick=[f"left == {k}" for k in (1, 2)],
+            what="whole run, real BasicRuntime: run 1 ends on the first result and leaves `left` events queued; its context is continued — under "
+                 "the SAME run id (symbolic) or a fresh one. A runtime may refuse the reused id; a run it does start reports, while its step "
+                 "is blocked, exactly that step as running, that event in progress and the rest queued, and its state is still computable "
+                 "after it finished",
+            bounds={"left-over events": "1..2", "run id": "reused / fresh"})
+def ob_continued_run_reports_its_own_state(left: int, reuse: bool) -> bool:
+    """
+    pre: 1 <= left <= 2
+    post: _
+    """
+    import asyncio
+
+    from vlib.miniloop import MiniLoop
+
+    left, reuse = conc(left, 1, 2), concb(reuse)
+    out: dict = {"problems": []}
+
+    async def main():
+        _CGATES.clear()
+        _CENTERED.clear()
+        wf = _FirstWins(timeout=None)
+        _CGATES[1] = asyncio.Event()
+        batch = [1, 2, 3][: left + 1]
+        h1 = wf.run(run_id="job-1", batch=batch)
+        for _ in range(200):
+            await asyncio.sleep(0)
+            if _nums(h1.ctx.to_dict()["workers"]["work"]["queue"]) == batch[1:]:
+                break
+        _CGATES[1].set()
+        r1 = await h1
+        if r1 != 1:
+            out["problems"].append(f"run 1 returned {r1!r}")
+            return
+        _CGATES[2] = asyncio.Event()
+        _CENTERED[2] = asyncio.Event()
+        try:
+            h2 = wf.run(ctx=h1.ctx, run_id=("job-1" if reuse else "job-2"), batch=[])
+        except RuntimeError:
+            out["refused"] = True      # a runtime may refuse a known run id
+            return
+        await asyncio.wait_for(_CENTERED[2].wait(), timeout=50)
+        for _ in range(20):
+            await asyncio.sleep(0)
+        try:
+            running = await h2.ctx.running_steps()
+            snap = h2.ctx.to_dict()
+            if running != ["work"]:
+                out["problems"].append(f"running_steps() == {running} while `work` is executing CWork(2)")
+            if _nums(snap["workers"]["work"]["in_progress"]) != [2] or _nums(snap["workers"]["work"]["queue"]) != batch[2:]:
+                out["problems"].append("to_dict() does not show CWork(2) in progress and the rest queued")
+        except Exception as e:  # noqa: BLE001
+            out["problems"].append(f"state of the live run could not be rebuilt: {type(e).__name__}: {e}")
+        _CGATES[2].set()
+        r2 = await h2
+        if r2 != 2:
+            out["problems"].append(f"run 2 returned {r2!r}")
+        try:
+            snap = h2.ctx.to_dict()
+            if _nums(snap["workers"]["work"]["in_progress"]) != [] or _nums(snap["workers"]["work"]["queue"]) != batch[2:]:
+                out["problems"].append("after run 2 to_dict() is not: nothing in progress, the rest queued")
+        except Exception as e:  # noqa: BLE001
+            out["problems"].append(f"after run 2 the state could not be rebuilt: {type(e).__name__}: {e}")
+
+    MiniLoop().run_until_complete(main())
+    if out["problems"] and __import__("os").environ.get("VERIF_DEBUG"):
+        __import__("sys").stderr.write(f"[continued left={left} reuse={reuse}] {out['problems']}\n")
+    return not out["problems"]
